@@ -52,7 +52,8 @@ def header_hash():
             for f in sorted(fn):
                 if f.endswith((".h", ".inc", ".hpp")):
                     p = os.path.join(dp, f)
-                    h.update(p.encode())
+                    # path relative to its root: a scratch worktree with identical headers shares /repo's cache entries
+                    h.update(os.path.relpath(p, root).encode())
                     with open(p, "rb") as fh:
                         h.update(fh.read())
     return h.hexdigest()
@@ -78,8 +79,12 @@ def compile_one(src, variant, hh):
     cxx = src.endswith(".cc")
     cc = ["g++", "-std=c++20"] if cxx else ["gcc", "-std=c11"]
     fl = flags(variant)
+    # the key is independent of where the tree lives (relative source path, include roots replaced by a placeholder):
+    # it still covers the source text, every header's text, the compiler and all flags
+    rel = os.path.relpath(src, REPO) if src.startswith(REPO + os.sep) else os.path.relpath(src, VERIF)
+    flkey = " ".join(cc + fl).replace(REPO, "<repo>")
     with open(src, "rb") as fh:
-        key = sha(fh.read() + hh.encode() + " ".join(cc + fl).encode() + src.encode())
+        key = sha(fh.read() + hh.encode() + flkey.encode() + rel.encode())
     od = os.path.join(CACHE, "obj", key[:2])
     os.makedirs(od, exist_ok=True)
     obj = os.path.join(od, key + ".o")
